@@ -62,7 +62,12 @@ def hook(g, rng):
 
 
 def run(ctx):
-    return P.run_sheets(ctx, 2, FEATURES, 120, 3000, depth=3, all_opts=False, wild=False, nontrivial=nontrivial, gen_hook=hook, max_sels=1000)
+    from . import inline_oracle
+    out = P.run_sheets(ctx, 2, FEATURES, 120, 3000, depth=3, all_opts=False, wild=False, nontrivial=nontrivial, gen_hook=hook, max_sels=1000)
+    # nested rules that come out of mixins (called in rules, at the top level, through namespaces, defined inside other mixins) must combine
+    # with the selector at the call site exactly like the same rules written there; one program in four follows a rejected compilation
+    n = (60 if ctx['tier'] == 'quick' else 1500) * ctx.get('mult', 1)
+    return inline_oracle.run(ctx, out, n, 202, label='rules_from_mixins_vs_rules_written_in_place')
 
 
 replay = P.replay
